@@ -9,7 +9,10 @@ ops:
         | ["oftype",root,cf,typ,[fol ids]]          → [id…]
         | ["model",x]                                → id
         | ["pot",typ,x]                              → id | null
-  {"op":"build","mm":[[cls,[[name,many,cont]…]]…],"tree":T}
+  {"op":"build","mm":[[cls,[[name,many,cont]…]]…],"tree":T,"truth":[[cls,"f"|"l"]…]}
+      truth (optional) = user classes whose instances are not always truthy: "f" never truthy
+      (`__bool__` → False), "l" container (`__len__` = number of items in its list-valued
+      containment attributes); every other class: always truthy
       T = ["t",pos,len,sep,truthy] | ["n",K,[T…]],  K = ["obj",cls] | ["abs"] | ["mat",truthy] | ["asgn",attr,"optional|plain|many"]
       → {"root":id|-1,"objs":[[id,cls,parent|null,pos,end,[[name,cont,[id…]]…]]…]}  | {"fail":true}
   {"op":"wf","tree":T,"len":n}                     → {"wf":bool,"pos":p,"end":e}
@@ -123,6 +126,25 @@ def mmOf (tbl : List (Nat × List MetaAttr)) (cls : Nat) : List MetaAttr :=
   | some (_, as) => as
   | none => []
 
+def parseTruth (j : Json) : Option (List (Nat × String)) := do
+  let xs ← asArr? j
+  xs.toList.mapM fun e => do
+    let ys ← asArr? e
+    let cls ← asNat? (← ys[0]?)
+    let k ← asStr? (← ys[1]?)
+    if k == "f" || k == "l" then pure (cls, k) else none
+
+/-- `bool(obj)` for the user classes the harness generates -/
+def truthOf (tbl : List (Nat × String)) (h : Heap) (x : Nat) : Bool :=
+  match h.get x with
+  | none => true
+  | some o =>
+    match tbl.find? (·.1 = o.cls) with
+    | some (_, "f") => false
+    | some (_, "l") => o.attrs.any fun (m, v) =>
+        m.cont && m.many && (match v with | .many vs => !vs.isEmpty | .one _ => false)
+    | _ => true
+
 def valJ : Val → Json
   | .obj i => toJson i
   | _ => toJson (-1 : Int)
@@ -148,14 +170,15 @@ def handle1 (j : Json) : Json :=
       | none => badOp
     | _, _ => badOp
   | some "build" =>
-    match (getObj? j "mm").bind parseMM, (getObj? j "tree").bind parsePT with
-    | some tbl, some t =>
-      match build (mmOf tbl) t with
+    match (getObj? j "mm").bind parseMM, (getObj? j "tree").bind parsePT,
+          (match getObj? j "truth" with | some tj => parseTruth tj | none => some []) with
+    | some tbl, some t, some truth =>
+      match build (truthOf truth) (mmOf tbl) t with
       | some (v, s) =>
         let objs := s.heap.zipIdx.map fun (o, i) => objJ i o
         Json.mkObj [("root", valJ v), ("objs", Json.arr objs.toArray), ("stack", toJson s.stack)]
       | none => Json.mkObj [("fail", true)]
-    | _, _ => badOp
+    | _, _, _ => badOp
   | some "wf" =>
     match (getObj? j "tree").bind parsePT, getNat? j "len" with
     | some t, some n => Json.mkObj [("wf", t.wfB n), ("pos", toJson t.pos), ("end", toJson t.posEnd)]
